@@ -13,6 +13,9 @@ use tree_sitter::{Point, Query, QueryCursor};
 
 pub struct C11;
 
+/// a query that yields more matches than this on a tree of <= 300 nodes is a combinatorial explosion: discarded
+const MATCH_CAP: usize = 1500;
+
 /// one match: (pattern index, sorted [(capture index, node index)])
 type M = (usize, Vec<(u32, usize)>);
 
@@ -103,6 +106,11 @@ impl Check for C11 {
         ctx.label(format!("tree:{how}"));
         ctx.label_if(with_preds, "with_predicates");
         let hdr = format!("lang={lname} tree={how} text={:?}\nquery={:?}\ntree={}", show_bytes(&text.bytes, 300), q.src, xt.render(l, 100));
+        if let Ok(p) = std::env::var("VERIF_DUMP_SRC") {
+            let _ = std::fs::write(format!("{p}.txt"), &text.bytes);
+            let _ = std::fs::write(format!("{p}.scm"), &q.src);
+            let _ = std::fs::write(format!("{p}.lang"), lname);
+        }
         let query_plain = match Query::new(l, &src_plain) {
             Ok(x) => x,
             Err(_) => {
@@ -149,6 +157,9 @@ impl Check for C11 {
                 }
                 caps.sort();
                 out.push((m.pattern_index, caps));
+                if out.len() > MATCH_CAP {
+                    return Err("EXPLOSION".into());
+                }
             }
             Ok(out)
         };
@@ -156,12 +167,21 @@ impl Check for C11 {
             ($cur:expr, $q:expr) => {
                 match collect($cur, $q) {
                     Ok(v) => v,
+                    Err(e) if e == "EXPLOSION" => {
+                        // repeated alternations over long sibling lists yield exponentially many matches: not judged
+                        ctx.discard("more than 1500 matches");
+                        return;
+                    }
                     Err(e) => {
                         ctx.fail("C11:capture_not_in_tree", format!("{e}\n{hdr}"));
                         return;
                     }
                 }
             };
+        }
+        if q.ast.patterns.iter().any(|(it, _)| crate::checks::c05::may_explode(it, &xt)) {
+            ctx.discard("repeated wildcard/alternation over a node with more than 12 children");
+            return;
         }
         // unrestricted reference stream (of the plain query)
         let mut c0 = QueryCursor::new();
@@ -420,7 +440,12 @@ impl Check for C11 {
                     let lost: Vec<_> = must.iter().filter(|k| !gm.contains_key(*k)).take(3).collect();
                     let open_q = q.ast.patterns.iter().any(|(it, _)| query::item_has_quantifier(it));
                     let wild_before_anchor = q.ast.patterns.iter().any(|(it, _)| crate::checks::c05::wildcard_child_before_anchor(it));
-                    ctx.fail(format!("C11:range:{kind}:lost_match{}", if wild_root { ":wildcard_root" } else if open_q { ":open_quantifier" } else if wild_before_anchor { ":wildcard_child_before_anchor" } else { "" }), format!("{} lost matches that lie in the range: {:?} ({} returned, {} required)\n{hdr}", cfg_desc.join(", "), lost, got.len(), must.len()));
+                    let has_alternation = q.ast.patterns.iter().any(|(it, _)| {
+                        let mut f = std::collections::BTreeSet::new();
+                        query::item_features(it, &mut f);
+                        f.contains("q:alternation")
+                    });
+                    ctx.fail(format!("C11:range:{kind}:lost_match{}", if wild_root { ":wildcard_root" } else if open_q { ":open_quantifier" } else if wild_before_anchor { ":wildcard_child_before_anchor" } else if has_alternation { ":alternation" } else { "" }), format!("{} lost matches that lie in the range: {:?} ({} returned, {} required)\n{hdr}", cfg_desc.join(", "), lost, got.len(), must.len()));
                     return;
                 }
                 if got.len() < m_all.len() && !got.is_empty() {
